@@ -62,12 +62,14 @@ type cmKont struct {
 	stmts []ast.Stmt
 	next  *cmKont
 	brk   *cmKont
+	loop  *cmSection // target of `continue` (the parking point at the head of the enclosing `for { select … }`)
 }
 
 type cmState struct {
-	env map[types.Object]string
-	w   string
-	brk *cmKont
+	env  map[types.Object]string
+	w    string
+	brk  *cmKont
+	loop *cmSection
 }
 
 type cmSection struct {
@@ -111,6 +113,15 @@ type cmGen struct {
 	cur      *cmState
 	usesNil  bool
 	retTypes []string
+	// extensions used by the applier / control methods (cachea.go); nil = the client-method tables
+	calls     []cmCall
+	chans     map[string]string
+	fields    map[string]string       // receiver fields read as pure interface values (`c.ignoreInternalCost`)
+	nilFields map[string]string       // receiver fields compared with nil (`c.cost != nil`)
+	cutNoArgs map[string]bool         // cut calls whose arguments are not represented
+	wait      map[types.Object]types.Object // received item -> synthetic local holding its `wait` channel
+	labels    map[string]*cmKont      // label of a loop -> continuation of `break <label>`
+	prefix    string                  // name printed in doc comments ("Cache.")
 }
 
 func (g *cmGen) src(n ast.Node) string { return g.pi.src(n) }
@@ -146,6 +157,21 @@ func (g *cmGen) mapType(t types.Type) (string, error) {
 			return g.mapType(u.Elem())
 		}
 		return "", fmt.Errorf("pointer type %s outside the subset", t)
+	case *types.Slice:
+		if g.isItem(u.Elem()) {
+			e, err := g.mapType(u.Elem())
+			if err != nil {
+				return "", err
+			}
+			return "(List " + e + ")", nil
+		}
+	case *types.Chan:
+		// the identity of a `wait` channel: nil or the number of its `make`
+		return "(Option Nat)", nil
+	case *types.Struct:
+		if u.NumFields() == 0 {
+			return "Unit", nil
+		}
 	case *types.Named:
 		if g.isItem(t) {
 			args := []string{}
@@ -208,6 +234,14 @@ func cmParen(s string) string {
 	return s
 }
 
+// cmUnparen strips one pair of outer parentheses
+func cmUnparen(s string) string {
+	if strings.HasPrefix(s, "(") && strings.HasSuffix(s, ")") && balancedOuter(s) {
+		return s[1 : len(s)-1]
+	}
+	return s
+}
+
 // balancedOuter: the first "(" closes at the last ")"
 func balancedOuter(s string) bool {
 	d := 0
@@ -227,12 +261,25 @@ func balancedOuter(s string) bool {
 
 func (g *cmGen) lookupCall(x *ast.CallExpr) *cmCall {
 	txt := g.src(x.Fun)
-	for i := range cachemCalls {
-		if cachemCalls[i].match == txt {
-			return &cachemCalls[i]
+	tab := cachemCalls
+	if g.calls != nil {
+		tab = g.calls
+	}
+	for i := range tab {
+		if tab[i].match == txt {
+			return &tab[i]
 		}
 	}
 	return nil
+}
+
+func (g *cmGen) chanOf(e ast.Expr) (string, bool) {
+	tab := cachemChans
+	if g.chans != nil {
+		tab = g.chans
+	}
+	ch, ok := tab[g.src(e)]
+	return ch, ok
 }
 
 // signature of an interface call: Lean parameter types, Lean result types
@@ -357,6 +404,25 @@ func (g *cmGen) hook(e ast.Expr) (string, lty, bool, error) {
 				}
 				return "(!c_nil)", lty{kind: "bool"}, true, nil
 			}
+			if sel, ok := other.(*ast.SelectorExpr); ok && sel.Sel.Name == "wait" {
+				if obj, _, ok := g.localOf(sel.X, st); ok && g.wait[obj] != nil {
+					if n, ok := st.env[g.wait[obj]]; ok {
+						if x.Op == token.EQL {
+							return "(" + n + ".isNone)", lty{kind: "bool"}, true, nil
+						}
+						return "(" + n + ".isSome)", lty{kind: "bool"}, true, nil
+					}
+				}
+			}
+			if f, ok := g.nilFields[g.src(other)]; ok {
+				if err := g.iface.add(f, "Bool"); err != nil {
+					return "", lty{}, true, err
+				}
+				if x.Op == token.EQL {
+					return "(!I." + f + ")", lty{kind: "bool"}, true, nil
+				}
+				return "I." + f, lty{kind: "bool"}, true, nil
+			}
 			return "", lty{}, true, fmt.Errorf("nil comparison %q outside the subset", g.src(x))
 		}
 	case *ast.CallExpr:
@@ -402,6 +468,16 @@ func (g *cmGen) hook(e ast.Expr) (string, lty, bool, error) {
 			}
 			t, err := leanType(g.pi.info.Types[x].Type)
 			return n + "." + x.Sel.Name, t, true, err
+		}
+		if f, ok := g.fields[g.src(x)]; ok {
+			t, err := leanType(g.pi.info.Types[x].Type)
+			if err != nil {
+				return "", lty{}, true, err
+			}
+			if err := g.iface.add(f, t.lean()); err != nil {
+				return "", lty{}, true, err
+			}
+			return "I." + f, t, true, nil
 		}
 		return "", lty{}, true, fmt.Errorf("selector %q outside the subset", g.src(x))
 	}
@@ -462,6 +538,9 @@ func (g *cmGen) val(e ast.Expr, st *cmState) (string, string, error) {
 
 func (g *cmGen) composite(cl *ast.CompositeLit, st *cmState) (string, string, error) {
 	t := g.pi.info.Types[cl].Type
+	if st, ok := t.Underlying().(*types.Struct); ok && st.NumFields() == 0 && len(cl.Elts) == 0 {
+		return "()", "Unit", nil
+	}
 	if !g.isItem(t) {
 		return "", "", fmt.Errorf("composite literal %q outside the subset", firstLine(g.src(cl)))
 	}
@@ -488,16 +567,65 @@ func (g *cmGen) composite(cl *ast.CompositeLit, st *cmState) (string, string, er
 	if len(fs) == 0 {
 		return "(Item.zero I.zeroV)", ty, nil
 	}
-	return "({ Item.zero I.zeroV with " + strings.Join(fs, ", ") + " } : " + strings.Trim(ty, "()") + ")", ty, nil
+	return "({ Item.zero I.zeroV with " + strings.Join(fs, ", ") + " } : " + cmUnparen(ty) + ")", ty, nil
 }
 
 // ---------------------------------------------------------------- sections
 
 func (g *cmGen) liveAt(k *cmKont, st *cmState, except map[types.Object]bool) []types.Object {
 	seen := map[types.Object]bool{}
+scan:
 	for kk := k; kk != nil; kk = kk.next {
 		for _, s := range kk.stmts {
+			switch y := s.(type) {
+			case *ast.ReturnStmt:
+				for _, r := range y.Results {
+					ast.Inspect(r, func(n ast.Node) bool {
+						if id, ok := n.(*ast.Ident); ok {
+							if obj := g.pi.info.Uses[id]; obj != nil && obj != g.recv && !except[obj] {
+								if _, in := st.env[obj]; in {
+									seen[obj] = true
+								}
+							}
+						}
+						return true
+					})
+				}
+				break scan
+			case *ast.BranchStmt:
+				if y.Tok == token.CONTINUE && y.Label == nil && kk.loop != nil {
+					for _, o := range kk.loop.live {
+						if _, in := st.env[o]; in && !except[o] {
+							seen[o] = true
+						}
+					}
+					break scan
+				}
+			case *cmLoopBack:
+				for _, o := range y.sec.live {
+					if _, in := st.env[o]; in && !except[o] {
+						seen[o] = true
+					}
+				}
+				continue
+			case *cmRangeHead:
+				if _, in := st.env[y.rest]; in && !except[y.rest] {
+					seen[y.rest] = true
+				}
+				s = y.rs.Body
+			case *cmTryRecv:
+				s = y.sel
+			}
 			ast.Inspect(s, func(n ast.Node) bool {
+				if sel, ok := n.(*ast.SelectorExpr); ok && sel.Sel.Name == "wait" {
+					if id, ok := sel.X.(*ast.Ident); ok {
+						if wo := g.wait[g.pi.info.Uses[id]]; wo != nil && !except[wo] {
+							if _, in := st.env[wo]; in {
+								seen[wo] = true
+							}
+						}
+					}
+				}
 				if id, ok := n.(*ast.Ident); ok {
 					if obj := g.pi.info.Uses[id]; obj != nil && obj != g.recv && !except[obj] {
 						if _, in := st.env[obj]; in {
@@ -644,7 +772,7 @@ func (g *cmGen) bind(lhs ast.Expr, text string, st *cmState, ind string) (string
 		n := g.freshN(l.Name)
 		st.env = copyEnv(st.env)
 		st.env[obj] = n
-		return fmt.Sprintf("%slet %s : %s := %s\n", ind, n, strings.Trim(ty, "()"), text), nil
+		return fmt.Sprintf("%slet %s : %s := %s\n", ind, n, cmUnparen(ty), text), nil
 	case *ast.SelectorExpr:
 		obj, cur, ok := g.localOf(l.X, st)
 		if !ok || !g.isItem(obj.Type()) || l.Sel.Name == "wait" {
@@ -657,7 +785,7 @@ func (g *cmGen) bind(lhs ast.Expr, text string, st *cmState, ind string) (string
 		n := g.freshN(obj.Name())
 		st.env = copyEnv(st.env)
 		st.env[obj] = n
-		return fmt.Sprintf("%slet %s : %s := { %s with %s := %s }\n", ind, n, strings.Trim(ty, "()"), cur, l.Sel.Name, text), nil
+		return fmt.Sprintf("%slet %s : %s := { %s with %s := %s }\n", ind, n, cmUnparen(ty), cur, l.Sel.Name, text), nil
 	}
 	return "", fmt.Errorf("assignment to %q outside the subset", g.src(lhs))
 }
@@ -670,6 +798,7 @@ func (g *cmGen) runK(k *cmKont, st cmState, ind string) (string, error) {
 		return g.park(&st, "ret", "", ind), nil
 	}
 	st.brk = k.brk
+	st.loop = k.loop
 	return g.seq(k.stmts, k.next, st, ind)
 }
 
@@ -723,7 +852,24 @@ func (g *cmGen) callStmt(spec *cmCall, call *ast.CallExpr, lhs []ast.Expr, st *c
 
 // cutCall: the callee has yield points of its own; the section ends here
 func (g *cmGen) cutCall(spec *cmCall, call *ast.CallExpr, lhs []ast.Expr, after *cmKont, st *cmState, ind string) (string, error) {
-	ps, rs, err := g.callSig(call)
+	var ps, rs []string
+	var err error
+	if g.cutNoArgs[spec.match] {
+		// the arguments (policy, callbacks) are not represented
+		sig, ok := g.pi.info.Types[call.Fun].Type.Underlying().(*types.Signature)
+		if !ok {
+			return "", fmt.Errorf("callee %q is not a function", g.src(call.Fun))
+		}
+		for i := 0; i < sig.Results().Len(); i++ {
+			t, err := g.mapType(sig.Results().At(i).Type())
+			if err != nil {
+				return "", err
+			}
+			rs = append(rs, t)
+		}
+	} else {
+		ps, rs, err = g.callSig(call)
+	}
 	if err != nil {
 		return "", err
 	}
@@ -736,6 +882,9 @@ func (g *cmGen) cutCall(spec *cmCall, call *ast.CallExpr, lhs []ast.Expr, after 
 		sec = &cmSection{ctor: "call_" + name, def: "after_" + name, cont: after,
 			doc: fmt.Sprintf("section after the call `%s` (the callee has yield points of its own)", g.src(call))}
 		for i, p := range ps {
+			if g.cutNoArgs[spec.match] {
+				break
+			}
 			sec.ctorArgs = append(sec.ctorArgs, cmField{fmt.Sprintf("arg%d", i+1), p})
 		}
 		except := map[types.Object]bool{}
@@ -768,6 +917,9 @@ func (g *cmGen) cutCall(spec *cmCall, call *ast.CallExpr, lhs []ast.Expr, after 
 	}
 	args := ""
 	for _, a := range call.Args {
+		if g.cutNoArgs[spec.match] {
+			break
+		}
 		s, _, err := g.val(a, st)
 		if err != nil {
 			return "", err
@@ -793,13 +945,16 @@ func (g *cmGen) seq(stmts []ast.Stmt, k *cmKont, st cmState, ind string) (string
 		return g.runK(k, st, ind)
 	}
 	s, rest := stmts[0], stmts[1:]
-	after := &cmKont{rest, k, st.brk}
+	after := &cmKont{rest, k, st.brk, st.loop}
 	switch x := s.(type) {
 	case *ast.BlockStmt:
 		return g.seq(x.List, after, st, ind)
 	case *ast.EmptyStmt:
 		return g.seq(rest, k, st, ind)
 	case *ast.ExprStmt:
+		if u, ok := x.X.(*ast.UnaryExpr); ok && u.Op == token.ARROW && g.calls != nil {
+			return g.recvStmt(u, rest, k, st, ind)
+		}
 		call, ok := x.X.(*ast.CallExpr)
 		if !ok {
 			break
@@ -813,6 +968,13 @@ func (g *cmGen) seq(stmts []ast.Stmt, k *cmKont, st cmState, ind string) (string
 				return "", err
 			}
 			return g.park(&st, sec.ctor, g.liveArgs(sec.live, &st), ind), nil
+		}
+		if out, ok, err := g.closeWait(call, &st, ind); ok || err != nil {
+			if err != nil {
+				return "", err
+			}
+			tail, err := g.seq(rest, k, st, ind)
+			return out + tail, err
 		}
 		spec := g.lookupCall(call)
 		if spec == nil {
@@ -875,6 +1037,21 @@ func (g *cmGen) seq(stmts []ast.Stmt, k *cmKont, st cmState, ind string) (string
 		tail, err := g.seq(rest, k, st, ind)
 		return out + tail, err
 	case *ast.AssignStmt:
+		if g.skippedDefine(x) {
+			return g.seq(rest, k, st, ind)
+		}
+		if op, ok := cmOpAssign[x.Tok]; ok && len(x.Lhs) == 1 && len(x.Rhs) == 1 {
+			v, _, err := g.val(&ast.BinaryExpr{X: x.Lhs[0], OpPos: x.TokPos, Op: op, Y: x.Rhs[0]}, &st)
+			if err != nil {
+				return "", err
+			}
+			out, err := g.bind(x.Lhs[0], v, &st, ind)
+			if err != nil {
+				return "", err
+			}
+			tail, err := g.seq(rest, k, st, ind)
+			return out + tail, err
+		}
 		if x.Tok != token.DEFINE && x.Tok != token.ASSIGN {
 			return "", fmt.Errorf("assignment %q outside the subset", g.src(x))
 		}
@@ -946,8 +1123,16 @@ func (g *cmGen) seq(stmts []ast.Stmt, k *cmKont, st cmState, ind string) (string
 		}
 		return fmt.Sprintf("%sif %s then\n%s\n%selse\n%s", ind, cond, thenS, ind, elseS), nil
 	case *ast.SwitchStmt:
-		if x.Tag != nil || x.Init != nil {
-			return "", fmt.Errorf("switch with a tag or an init statement outside the subset")
+		if x.Init != nil {
+			return "", fmt.Errorf("switch with an init statement outside the subset")
+		}
+		tag := ""
+		if x.Tag != nil {
+			t, _, err := g.val(x.Tag, &st)
+			if err != nil {
+				return "", err
+			}
+			tag = cmParen(t)
 		}
 		var cases []*ast.CaseClause
 		var deflt *ast.CaseClause
@@ -971,6 +1156,14 @@ func (g *cmGen) seq(stmts []ast.Stmt, k *cmKont, st cmState, ind string) (string
 			}
 			conds := []string{}
 			for _, e := range cases[i].List {
+				if tag != "" {
+					v, _, err := g.val(e, &st)
+					if err != nil {
+						return "", err
+					}
+					conds = append(conds, "("+tag+" == "+cmParen(v)+")")
+					continue
+				}
 				c, err := g.boolCond(e, &st)
 				if err != nil {
 					return "", err
@@ -996,8 +1189,40 @@ func (g *cmGen) seq(stmts []ast.Stmt, k *cmKont, st cmState, ind string) (string
 		if x.Tok == token.BREAK && x.Label == nil && st.brk != nil {
 			return g.runK(st.brk, st, ind)
 		}
+		if x.Tok == token.BREAK && x.Label != nil && g.labels[x.Label.Name] != nil {
+			return g.runK(g.labels[x.Label.Name], st, ind)
+		}
+		if x.Tok == token.CONTINUE && x.Label == nil && st.loop != nil {
+			return g.park(&st, st.loop.ctor, g.liveArgs(st.loop.live, &st), ind), nil
+		}
 		return "", fmt.Errorf("%q outside the subset", g.src(x))
+	case *ast.GoStmt:
+		if spec := g.lookupCall(x.Call); spec != nil && spec.kind == cmWrite && g.calls != nil {
+			out, err := g.callStmt(spec, x.Call, nil, &st, ind)
+			if err != nil {
+				return "", err
+			}
+			tail, err := g.seq(rest, k, st, ind)
+			return out + tail, err
+		}
+	case *cmLoopBack:
+		return g.park(&st, x.sec.ctor, g.liveArgs(x.sec.live, &st), ind), nil
+	case *cmRangeHead:
+		return g.rangeHead(x, after, st, ind)
+	case *cmTryRecv:
+		return g.tryRecv(x, after, st, ind)
+	case *ast.RangeStmt:
+		return g.rangeStart(x, after, st, ind)
+	case *ast.LabeledStmt:
+		if f, ok := x.Stmt.(*ast.ForStmt); ok {
+			return g.forSelect(f, x.Label.Name, after, st, ind)
+		}
+	case *ast.ForStmt:
+		return g.forSelect(x, "", after, st, ind)
 	case *ast.SelectStmt:
+		if isRecvSelect(x) {
+			return "", fmt.Errorf("a receiving select outside `for { select … }` is outside the subset")
+		}
 		var send *ast.CommClause
 		var deflt *ast.CommClause
 		for _, c := range x.Body.List {
@@ -1014,7 +1239,7 @@ func (g *cmGen) seq(stmts []ast.Stmt, k *cmKont, st cmState, ind string) (string
 			return "", fmt.Errorf("select outside the subset (one send clause and a default clause)")
 		}
 		ss := send.Comm.(*ast.SendStmt)
-		ch, ok := cachemChans[g.src(ss.Chan)]
+		ch, ok := g.chanOf(ss.Chan)
 		if !ok {
 			return "", fmt.Errorf("channel %q is not in the interface table", g.src(ss.Chan))
 		}
@@ -1040,7 +1265,7 @@ func (g *cmGen) seq(stmts []ast.Stmt, k *cmKont, st cmState, ind string) (string
 		}
 		return out + fmt.Sprintf("%sif %s.2 then\n%s\n%selse\n%s", ind, r, thenS, ind, elseS), nil
 	case *ast.SendStmt:
-		ch, ok := cachemChans[g.src(x.Chan)]
+		ch, ok := g.chanOf(x.Chan)
 		if !ok {
 			return "", fmt.Errorf("channel %q is not in the interface table", g.src(x.Chan))
 		}
@@ -1054,7 +1279,7 @@ func (g *cmGen) seq(stmts []ast.Stmt, k *cmKont, st cmState, ind string) (string
 		if err := g.iface.add(ch+"_send", cmFnType([]string{"W", vty}, "W × Bool")); err != nil {
 			return "", err
 		}
-		sec, err := g.yieldAt(isVerifCall(rest[0], "verifPoint"), &cmKont{rest[1:], k, st.brk}, &st)
+		sec, err := g.yieldAt(isVerifCall(rest[0], "verifPoint"), &cmKont{rest[1:], k, st.brk, st.loop}, &st)
 		if err != nil {
 			return "", err
 		}
@@ -1158,7 +1383,7 @@ func (g *cmGen) translate() (string, error) {
 	fmt.Fprintf(&b, "inductive %s_Out (%s : Type) where\n", g.fn, tp)
 	ret := "  | ret"
 	for i, t := range g.retTypes {
-		ret += fmt.Sprintf(" (r%d : %s)", i+1, strings.Trim(t, "()"))
+		ret += fmt.Sprintf(" (r%d : %s)", i+1, cmUnparen(t))
 	}
 	b.WriteString(ret + "\n")
 	for _, sec := range g.secs {
@@ -1168,7 +1393,7 @@ func (g *cmGen) translate() (string, error) {
 		fs, _ := g.liveFields(sec.live)
 		line := "  | " + sec.ctor
 		for _, f := range append(append([]cmField{}, sec.ctorArgs...), fs...) {
-			line += fmt.Sprintf(" (%s : %s)", f.name, strings.Trim(f.ty, "()"))
+			line += fmt.Sprintf(" (%s : %s)", f.name, cmUnparen(f.ty))
 		}
 		b.WriteString(line + "\n")
 	}
@@ -1184,7 +1409,7 @@ func (g *cmGen) translate() (string, error) {
 		}
 		params += " (w : W)"
 		for _, f := range append(append([]cmField{}, sec.defExtra...), fs...) {
-			params += fmt.Sprintf(" (%s : %s)", f.name, strings.Trim(f.ty, "()"))
+			params += fmt.Sprintf(" (%s : %s)", f.name, cmUnparen(f.ty))
 		}
 		fmt.Fprintf(&b, "/-- %s, %s -/\n", full, sec.doc)
 		fmt.Fprintf(&b, "def %s_%s {W %s : Type} (I : Iface W %s)%s : W × %s :=\n%s\n\n", g.fn, sec.def, tp, tp, params, g.outTy(), sec.body)
@@ -1193,7 +1418,7 @@ func (g *cmGen) translate() (string, error) {
 	fmt.Fprintf(&b, "/-- %s: run the section that starts where `o` stopped (`ret`, `call_…` and `…_blocked` do not run code of this method) -/\n", full)
 	fmt.Fprintf(&b, "def %s_step {W %s : Type} (I : Iface W %s) (w : W) : %s → W × %s\n", g.fn, tp, tp, g.outTy(), g.outTy())
 	for _, sec := range g.secs {
-		if sec.ctor == "" || sec.def == "" || len(sec.ctorArgs) != 0 || sec.usesNil {
+		if sec.ctor == "" || sec.def == "" || len(sec.ctorArgs) != 0 || strings.HasPrefix(sec.ctor, "call_") || sec.usesNil {
 			continue
 		}
 		fs, _ := g.liveFields(sec.live)
